@@ -1,0 +1,3 @@
+//! bgp-tcp-in unit hooks (area BgpIn): see
+//! `units::bgp_tcp_in::unit::verif_hooks_bgpin`.
+pub use crate::units::bgp_tcp_in::unit::verif_hooks_bgpin::*;
